@@ -41,7 +41,8 @@ CLAIMED.update({
              'implies verified extraction (or stale marker without force); any other outcome leaves nothing extracted/marked; '
              'liveness against an honest server incl. resume; and for every HISTORY of invocations on one install directory '
              '(history_extracts_only_verified, history_marked_implies, induction on the list of calls): everything ever '
-             'extracted is verified, a marker at the end needs a verified extraction or a marker at the start. Tied by '
+             'extracted is verified, a marker at the end needs a verified extraction or a marker at the start; prob_status is '
+             'proved equal to the decision list GENERATED from its source on every run (probStatus_follows_generated_rules). Tied by '
              'fault-script correspondence with a fake requests module over histories of 1..3 invocations.',
         note=COMMON_NOTE + 'SHA-256 is an abstract predicate (driver: equality with the good content); requests/tarfile/yaml are '
              'replaced or observed at their interface; Dataset.upgrade() after install is outside (C20).',
